@@ -712,7 +712,8 @@ def run_prop(ctx):
     with tlc.Scratch(ctx.prop.lower()) as sc:
         cases = P.generate(ctx, sc, p['cfg'](ctx.tier))
         if p['sizes']:
-            for T, v in P.size_cases(not ctx.quick and ctx.prop == 'C03')      # the 64 KiB strings only once: TLC needs ~20 min per such trace:
+            # the 64 KiB strings only in C03: TLC needs ~20 min per such trace
+            for T, v in P.size_cases(not ctx.quick and ctx.prop == 'C03'):
                 cases.append({'id': len(cases) + 1, 'T': T, 'v': v, 'forms': {}})
         traces = core.pmap(p['plan'], cases)
         P.codec_common_finish(ctx, sc, cases, traces, clauses=p['clauses'])
